@@ -117,7 +117,8 @@ func init() {
 
 	checkDefs["C01"] = &CheckDef{Prop: "C01", Enable: []string{"C01."},
 		Instances: func(tier string) []Instance {
-			return append(append(arithInstances(tier, "zero"), p0Instances(tier)...), ctxParseInstances(tier, "zero")...)
+			out := append(append(arithInstances(tier, "zero"), p0Instances(tier)...), ctxParseInstances(tier, "zero")...)
+			return append(out, limitInstances(tier)...)
 		},
 		PathModels: true, PathModelSample: 40, Stubs: stubsLevelA, Bounds: boundsArith, Outside: outsideArith, Assumptions: assumeCommon,
 		RequireCovers: []string{"round.subnormal", "round.overflow", "round.inexact", "add.subnormal", "mul.overflow", "quo.subnormal", "quo.inexact"}}
@@ -135,6 +136,7 @@ func init() {
 				}
 			}
 			out = append(out, ctxParseInstances(tier, "zero")[:4]...)
+			out = append(out, limitInstances(tier)...)
 			// Context.Reduce flags, and the Division*/InvalidOperation conditions on special operands
 			for _, m := range []string{"half_even", "floor"} {
 				out = append(out, inst("VerifReduce", 4, p("op", "ctx", "K", 4, "W", 4, "Pmin", 1, "regime", 0, "traps", "zero", "mode", m)))
@@ -674,6 +676,26 @@ func compositeInstances(tier string) []Instance {
 				out = append(out, inst("VerifComposite", 2, p("op", c.op, "x", c.x, "y", c.y, "P", cx[0], "Emin", cx[1], "Emax", cx[2], "mode", m, "traps", "sym", "K", 3,
 					"hangcheck", 1, "maxInstr", 60000000)))
 			}
+		}
+	}
+	return out
+}
+
+// limitInstances: operands at the package exponent limits (regime 1: near -100000 with
+// MinExponent = -100000; regime 2: near +100000 with MaxExponent = 100000): system
+// conditions are raised only when the exact value really leaves the limits.
+func limitInstances(tier string) []Instance {
+	var out []Instance
+	K := 3
+	if tier == "thorough" {
+		K = 4
+	}
+	for _, reg := range []int{1, 2} {
+		for _, m := range []string{"half_even", "floor"} {
+			base := p("Pmin", 1, "regime", reg, "traps", "zero", "mode", m)
+			out = append(out, inst("VerifRound", 1, base, "K", K, "W", 3))
+			out = append(out, inst("VerifMul", 2, base, "K", K, "W", 3))
+			out = append(out, inst("VerifAdd", 6, base, "K", 2, "W", 2, "sub", 1))
 		}
 	}
 	return out
